@@ -567,9 +567,11 @@ Section Sound.
     { destruct s'; try (left; inversion H; auto; fail).
       destruct v'; try (left; inversion H; auto; fail).
       - destruct (const_index c0) as [n|] eqn:Ei; [|left; inversion H; auto].
+        destruct (existsb is_starred es); [left; inversion H; auto|].
         destruct (seq_project es n) as [r| | |] eqn:Er; cbn [sbind] in H; try discriminate.
         right. left. exists c0, es, n, true. inversion H; subst. auto.
       - destruct (const_index c0) as [n|] eqn:Ei; [|left; inversion H; auto].
+        destruct (existsb is_starred es); [left; inversion H; auto|].
         destruct (seq_project es n) as [r| | |] eqn:Er; cbn [sbind] in H; try discriminate.
         right. left. exists c0, es, n, false. inversion H; subst. auto.
       - destruct (const_key c0) eqn:Ek; [|left; inversion H; auto].
